@@ -28,7 +28,7 @@ def ts_roundtrip(item_size, ms):
     def thunk():
         P = E.cur()
         secs, m = z3.Int('secs'), z3.Int('millis')
-        P.assume(z3.And(secs >= 0, secs < 2 ** 32))                  # instants 1970..2106 (the property's range)
+        P.assume(z3.And(secs >= 0, secs <= 253402300799))            # every instant datetime can hold: 1970 .. 9999-12-31 23:59:59
         P.assume(z3.And(m >= 0, m < 1000) if ms else m == 0)
         stamp = secs * 1000 + m if ms else secs
         P.assume(stamp < 256 ** item_size - 1)                       # fits the field and is not the 'forever' sentinel
@@ -85,8 +85,9 @@ def ts_search(item_size, ms):
             for tz in ('UTC', 'Europe/Budapest', 'America/New_York', 'Asia/Kolkata', 'Australia/Lord_Howe', 'Europe/Moscow', 'Pacific/Apia'):
                 os.environ['TZ'] = tz
                 time.tzset()
-                for base in [0, 1, 86399, 1625140800, 1616893200, 1635642000, 2 ** 31 - 1, 2 ** 31, 2 ** 32 - 2] + \
-                        [rnd.randrange(0, 2 ** 32 - 1) for _ in range(20)]:
+                for base in [0, 1, 86399, 1625140800, 1616893200, 1635642000, 2 ** 31 - 1, 2 ** 31, 2 ** 32 - 2, 2 ** 32, 2 ** 32 + 1,
+                             0x1122334455, 253402300799] + [rnd.randrange(0, 2 ** 32 - 1) for _ in range(20)] + \
+                        [rnd.randrange(2 ** 32, 253402300799) for _ in range(10)]:
                     m = rnd.randrange(1000) if ms else 0
                     stamp = base * 1000 + m if ms else base
                     if stamp >= 256 ** item_size - 1:
